@@ -20,14 +20,16 @@ def add(src, name, prop, needs):
     try:
         demo = open(os.path.join(src, 'demo_test.go')).read()
         tags = '-tags verif' if 'go:build verif' in demo else ''
+        import re
+        tests = '|'.join('^%s$' % t for t in re.findall(r'func (Test\w+)\(', demo))
         shutil.copy(os.path.join(src, 'demo_test.go'), os.path.join(wt, 'pkg/ggql/zz_demo_test.go'))
-        rc0, o0 = sh('go test %s -vet=off -count=1 -run "ZZ|Demo" ./pkg/ggql/' % tags, cwd=wt)
+        rc0, o0 = sh('go test %s -vet=off -count=1 -run "%s" ./pkg/ggql/' % (tags, tests), cwd=wt)
         ran.append('demo on unchanged tree: ' + ('pass' if rc0 == 0 else 'FAIL'))
         rc, o = sh('git apply %s' % os.path.join(src, 'patch.diff'), cwd=wt)
         assert rc == 0, 'patch does not apply: ' + o
         rcb, ob = sh('go build ./... && go build -tags verif ./...', cwd=wt)
         ran.append('build with change: ' + ('ok' if rcb == 0 else 'FAIL'))
-        rc1, o1 = sh('go test %s -vet=off -count=1 -run "ZZ|Demo" ./pkg/ggql/' % tags, cwd=wt)
+        rc1, o1 = sh('go test %s -vet=off -count=1 -run "%s" ./pkg/ggql/' % (tags, tests), cwd=wt)
         ran.append('demo with change: ' + ('fail (as required)' if rc1 != 0 else 'PASSES (bad)'))
         os.remove(os.path.join(wt, 'pkg/ggql/zz_demo_test.go'))
         rc2, o2 = sh('python3 /verif/tools/baseline.py %s' % wt)
